@@ -4,7 +4,7 @@ sys.path.insert(0, os.path.dirname(__file__))
 from _common import main, j2b, b2j
 import iso_common as R
 
-BOUND = 'caller-owned configuration edited in place / copied and edited / re-ordered between calls (8 edits, chains of up to 4); every single configured element and every pair of elements (values sampled incl. boundary lengths 1, max), larger subsets sampled; over-length variable values; latin_1/cp500/cp037; binary and hex bitmap; PDS sets; compared byte-for-byte and key-for-key with a reference codec written from the documentation'
+BOUND = 'decimal-typed custom elements incl. zero values; caller-owned configuration edited in place / copied and edited / re-ordered between calls (8 edits, chains of up to 4); every single configured element and every pair of elements (values sampled incl. boundary lengths 1, max), larger subsets sampled; over-length variable values; latin_1/cp500/cp037; binary and hex bitmap; PDS sets; compared byte-for-byte and key-for-key with a reference codec written from the documentation'
 
 
 def norm(v):
@@ -102,6 +102,23 @@ def oracle(inp):
         return check_msg(msg, cfg, enc, hexb, {})
     if kind == 'history':
         return check_history(inp)
+    if kind == 'custom-decimal':
+        import decimal
+        W = inp['W']
+        v = decimal.Decimal(inp['v'])
+        c = {'4': {'field_name': 'amt', 'field_type': 'FIXED', 'field_length': W, 'field_python_type': 'decimal'},
+             '3': {'field_name': 'p', 'field_type': 'FIXED', 'field_length': 6}}
+        for enc in ('latin_1', 'cp500'):
+            m = {'MTI': '1144', 'DE3': '123456', 'DE4': v}
+            raw = iso8583.dumps(dict(m), encoding=enc, iso_config=c)
+            want = R.ref_encode(m, c, enc)
+            if raw != want:
+                return 'layout: decimal-typed element with value %r: dumps differs from the documented layout (element %s)' % (
+                    v, 'missing' if len(raw) < len(want) else 'rendered differently')
+            back = iso8583.loads(raw, encoding=enc, iso_config=c)
+            if back.get('DE4') != v:
+                return 'roundtrip: decimal value %r came back as %r' % (v, back.get('DE4'))
+        return None
     if kind == 'custom-int':
         W, v = inp['W'], inp['v']
         c = {'2': {'field_name': 'n', 'field_type': 'FIXED', 'field_length': W, 'field_python_type': 'long'},
@@ -188,6 +205,9 @@ def cases(tier, rng):
     for W in (1, 2, 9, 15, 16, 17, 19, 20):
         for v in (0, 10 ** W - 1, min(10 ** W - 1, 2 ** 53 + 1), min(10 ** W - 1, 9007199254740993)):
             yield {'kind': 'custom-int', 'W': W, 'v': v, 'ftype': 'FIXED'}
+    for W in (6, 12):
+        for v in ('0', '0.00', '0E-7', '1', '12.5', '99999', '-0'):
+            yield {'kind': 'custom-decimal', 'W': W, 'v': v}
     # PDS sets
     for la in list(range(470, 500)) + [0, 1, 992]:
         for lb in (0, 485, 493, 499, 500, 501):
